@@ -504,8 +504,8 @@ class Grammar(Model):
         keywords = keywords or config.keywords or ()
         keywords = tuple(k for k in keywords or () if k)
         assert isinstance(keywords, tuple)
-        if self.config.ignorecase:
-            keywords = tuple(k.upper() for k in keywords if k)
+        # NOTE: keywords keep their spelling; they are folded for each parse
+        #   according to the ignorecase setting in force for that parse
         keywords = tuple(sorted(set(keywords)))
         assert isinstance(keywords, tuple)
         self.keywords = keywords
